@@ -659,6 +659,36 @@ def add_array_tag(prj, rng, name, atom, n):
     return t
 
 
+def _builder_for(prj, rng):
+    """a ProjectBuilder that adds to an existing project (ids already in use are respected)"""
+    pb = ProjectBuilder.__new__(ProjectBuilder)
+    pb.rng, pb.prj, pb.names = rng, prj, set()
+    pb.used = {"template": set(prj.by_template), "handle": {t.handle for t in prj.types.values() if t.handle is not None},
+               "instance": {t.instance_id for t in prj.symbols} | {t.instance_id for p in prj.programs.values() for t in p["symbols"]}
+               | {p["instance_id"] for p in prj.programs.values() if p.get("instance_id") is not None}}
+    return pb
+
+
+def add_struct_tag(prj, rng, type_name, fields, tag_name, dims=()):
+    """one more UDT (fields as for ProjectBuilder.udt) and a controller-scoped tag of it, with a random memory image"""
+    pb = _builder_for(prj, rng)
+    t = pb.udt(type_name, fields)
+    tag = pb.tag(tag_name, t, dims)
+    tag.data = bytearray(rng.getrandbits(8) for _ in range(len(tag.data)))
+    return t, tag
+
+
+def add_string_tag(prj, rng, type_name, capacity, tag_name):
+    """one more string type of the given capacity and a controller-scoped tag of it (LEN within the capacity)"""
+    pb = _builder_for(prj, rng)
+    t = pb.string_type(type_name, capacity)
+    tag = pb.tag(tag_name, t, ())
+    n = rng.randrange(0, capacity + 1)
+    tag.data[:4] = n.to_bytes(4, "little")
+    tag.data[4:4 + n] = bytes(rng.randrange(32, 127) for _ in range(n))
+    return t, tag
+
+
 def redefine_type(prj, rng):
     """Controller program edited and re-downloaded: a UDT that is not nested in another type gets a new member list
     under the SAME template instance id (new structure handle).  Returns the type or None."""
